@@ -246,7 +246,58 @@ def r22c(ctx, P):
                "score order wrong or missing" if not score_ok else "text tie-break wrong or missing"), "%s:%s" % (g.file, g.line))
 
 
-THOROUGH_FEATURES = ['r22a', 'r22b', 'r22c']
+def r22d(ctx, P):
+    rid = "R22.d"
+    ctx.rule(rid, "UNIT (the length pre-filter counts what the edit distance counts): bounded_levenshtein works on characters; wherever "
+                  "the reader compares a difference of two lengths (usize::abs_diff) with an edit budget derived from `max_edits`, both "
+                  "lengths are character counts (Chars::count / the length of a collected Vec<char>), never byte lengths (str::len, "
+                  "String::len): a term one multi-byte character away from the prefix is more than one byte longer and would be dropped "
+                  "before the distance is computed")
+    n = 0
+    for q, f in sorted(P.fns.items()):
+        if f.crate != "searchlite_core" or is_test_or_bench(f) or "api::reader" not in q:
+            continue
+        sl = None
+        for b, t in f.calls():
+            if not callee_of(t).endswith("::abs_diff") or len(t["args"]) != 2:
+                continue
+            sl = sl or Slice(f, through_all_calls=True)
+            # compared with something derived from max_edits?
+            res = t["dst"]["l"]
+            budget = False
+            for b2, i2, st in f.stmts():
+                if st["k"] == "assign" and st["rv"]["k"] == "binop" and st["rv"]["op"] in ("Gt", "Ge", "Lt", "Le"):
+                    ops = (st["rv"]["a"], st["rv"]["b"])
+                    if any(op_local(o) == res or res in Slice(f).locals(o) for o in ops):
+                        for o in ops:
+                            srcs = sl.sources(o)
+                            if any(x[0] == "field" and "max_edits" in x[2] for x in srcs) or \
+                                    any(x[0] == "arg" and f.locals[x[1]].get("name") == "max_edits" for x in srcs):
+                                budget = True
+            if not budget:
+                continue
+            n += 1
+            ctx.saw(f)
+            bad = None
+            for a in t["args"]:
+                srcs = sl.sources(a)
+                chars = any(x[0] == "call" and (callee_of(x[2]).endswith("Iterator::count") or callee_of(x[2]).endswith("Chars<'_> as core::iter::traits::iterator::Iterator>::count")
+                                                 or "Chars" in callee_of(x[2])) for x in srcs) or \
+                    any(x[0] == "call" and callee_of(x[2]).endswith("Vec::<T, A>::len") and "char" in f.local_ty(op_local(x[2]["args"][0]) or 0) for x in srcs)
+                bytes_ = [callee_of(x[2]) for x in srcs if x[0] == "call" and (callee_of(x[2]).endswith("str::<impl str>::len") or callee_of(x[2]).endswith("String::len"))]
+                if bytes_ and not chars:
+                    bad = bytes_[0]
+                elif not chars and not bytes_:
+                    # a parameter / value of unknown unit: only accepted when it is named as a character count by construction
+                    pass
+            ctx.ob(rid, "%s:%s:length-prefilter-in-characters" % (rid, f.short.rsplit("::", 1)[-1]), bad is None,
+                   "the length pre-filter at %s compares character counts" % Site(f, b).loc() if bad is None else
+                   "the length pre-filter at %s compares byte lengths (%s) with the edit budget: a candidate within max_edits character "
+                   "edits whose UTF-8 length differs by more is dropped" % (Site(f, b).loc(), bad.rsplit("::", 1)[-1]), Site(f, b).loc())
+    ctx.floor(rid, n, 2, "length pre-filters against an edit budget in api::reader (query expansion, completion)")
+
+
+THOROUGH_FEATURES = ['r22a', 'r22b', 'r22c', 'r22d']
 
 
 def run(ctx, progs):
@@ -254,6 +305,7 @@ def run(ctx, progs):
     r22a(ctx, P)
     r22b(ctx, P)
     r22c(ctx, P)
+    r22d(ctx, P)
     ctx.assumptions += ["SegmentReader::terms_with_prefix enumerates every term of the segment with that prefix; PostingsReader::len is the "
                         "number of documents containing the term in that segment (deleted documents are not subtracted: the statement "
                         "quantifies over histories without pending deletions)"]
